@@ -91,6 +91,7 @@ func lookup(name string, names []string) int {
 }
 
 func Documented(t *Ty, v *Val) bool {
+	v = v.Plain()
 	switch v.Tag {
 	case "nilptr":
 		return true
@@ -240,6 +241,7 @@ func marshalsNil(v *Val) bool {
 }
 
 func Excluded(proto byte, t *Ty, v *Val) bool {
+	v = v.Plain()
 	switch v.Tag {
 	case "nilptr":
 		return false
